@@ -161,12 +161,11 @@ ACCEPTED2_LEAN = [
     '  return found']
 
 REFUSED2 = {
-    "set() for a local that is not declared a set": "def k2(x, l):\n    other = set()\n    return other\n",
+    # (three former refusals - `set()` for an undeclared local, a nested loop without break, `set(l)` - are constructs of
+    #  the translator now: added for harness/pygen_pxindex.py and exercised by pygen_pxindex_selftest.py)
     "add on a list": "def k2(x, l):\n    found = set()\n    out = x.split()\n    for w in l:\n        out.add(w)\n    return found\n",
     "first-match loop with an else": "def k2(x, l):\n    found = set()\n    for w in l:\n        for p in w.split():\n            if p in x:\n                found.add(p)\n                break\n        else:\n            found.add(w)\n    return found\n",
-    "nested loop without break": "def k2(x, l):\n    found = set()\n    for w in l:\n        for p in w.split():\n            if p in x:\n                found.add(p)\n    return found\n",
     "break that is not the last statement": "def k2(x, l):\n    found = set()\n    for w in l:\n        for p in w.split():\n            if p in x:\n                break\n                found.add(p)\n    return found\n",
-    "set with arguments": "def k2(x, l):\n    found = set(l)\n    return found\n",
     "size of the set": "def k2(x, l):\n    found = set()\n    for w in l:\n        found.add(w)\n    if len(found) == 2:\n        return found\n    return found\n",
 }
 
